@@ -179,6 +179,7 @@ PROPERTIES = {
             {"group": "lib", "name": "c13_config_filterer_swap", "covers": ["rejects", "errors"], "bounds": "Config::filterer then check_event: verdict Ok(true)/Ok(false)/Err symbolic"},
             {"group": "lib", "module": "c13watch", "name": "c13_watch_change_while_parked", "covers": ["change while parked seen"], "bounds": "real ConfigWatched::next: first call resolves at once, the second stays pending without a change, a setter called while it is parked resolves it (throttle seconds symbolic)"},
             {"group": "lib", "module": "c13watch", "name": "c13_watch_change_between_nexts", "covers": ["change between two next() calls made"], "bounds": "the REAL async ConfigWatched::next over the real tokio Notify: first next() resolves; a Config setter runs while no next() future is alive (the worker is applying the configuration); the following next() must resolve (found the lost-change defect, fixed in /repo 0f1505c)"},
+            {"group": "lib", "module": "c13watch", "name": "c13_watch_two_changes_then_quiet", "covers": ["quiet after the changes were seen"], "bounds": "real ConfigWatched::next: two setters between two calls -> the next call resolves; the call after that stays pending (nothing lost, nothing reported twice)"},
             {"group": "lib", "name": "c13_config_throttle", "covers": ["throttle"], "bounds": "symbolic Duration stored exactly; listener on the change signal woken"},
             {"group": "lib", "name": "c13_config_keyboard_events", "covers": ["keyboard-on"], "bounds": "symbolic bool"},
             {"group": "lib", "name": "c13_config_file_watcher_poll", "covers": ["watcher-poll"], "bounds": "Watcher::Poll(symbolic interval)"},
